@@ -129,7 +129,7 @@ def default_style():
         boolconst=True,        # true / false printed as (and) / (or)
         function_type=0.7,     # `- number` after the function declarations
         cost_zero=0.5,         # (increase (total-cost) 0) printed (else omitted)
-        metric_bare=0.0,       # (:metric minimize total-cost) hmm / bare 0-ary heads in the metric
+        metric_bare=0.0,       # (:metric minimize total-cost) without parentheses
         problem_req=0.2,       # the problem repeats (:requirements ...)
         comments=0.3,
     )
